@@ -4,6 +4,7 @@
 let () = Drv_check.(ignore of_error)
 let () = Dfa_io.(ignore of_inp)
 let () = Drv_meaning.(ignore linked)
+let () = Drv_ambig.(ignore linked)
 
 let () =
   let ic = stdin in
